@@ -17,7 +17,7 @@ def replay_fsx(body: dict) -> int:
     monitors = _load(tuple(rp["monitor_spec"][:2]) + (rp["monitor_spec"][2],))
     history = history_from_json(rp["history"])
     sim = world.starts[history[0]]
-    hv = world.hv0()
+    hv = world.hv0_for(history[0])
     want = [str(x) for x in body["signature"]]
     found = []
     for m in monitors.initial:
